@@ -12,11 +12,45 @@ impl<T> Atomic<T> {
         Self(AtomicPtr::default())
     }
 
+    #[cfg_attr(flurry_verif, track_caller)]
     pub(crate) fn load<'g>(&self, ordering: Ordering, guard: &'g Guard<'_>) -> Shared<'g, T> {
+        #[cfg(flurry_verif)]
+        {
+            use crate::verif::{self, Cell, Kind};
+            let mut op = verif::op(
+                Kind::Load,
+                Cell::Ptr,
+                self as *const _ as usize,
+                ordering,
+                None,
+            );
+            op.protected = true;
+            let r: Shared<'g, T> = guard.protect(&self.0, ordering).into();
+            verif::hooks().after_op(&op, r.ptr as usize, None);
+            return r;
+        }
+        #[allow(unreachable_code)]
         guard.protect(&self.0, ordering).into()
     }
 
+    #[cfg_attr(flurry_verif, track_caller)]
     pub(crate) fn store(&self, new: Shared<'_, T>, ordering: Ordering) {
+        #[cfg(flurry_verif)]
+        {
+            use crate::verif::{self, Cell, Kind};
+            let op = verif::op(
+                Kind::Store,
+                Cell::Ptr,
+                self as *const _ as usize,
+                ordering,
+                None,
+            );
+            let old = self.0.load(Ordering::Relaxed);
+            self.0.store(new.ptr, ordering);
+            verif::hooks().after_op(&op, old as usize, Some(new.ptr as usize));
+            return;
+        }
+        #[allow(unreachable_code)]
         self.0.store(new.ptr, ordering);
     }
 
@@ -24,15 +58,26 @@ impl<T> Atomic<T> {
         Box::from_raw(self.0.into_inner())
     }
 
+    #[cfg_attr(flurry_verif, track_caller)]
     pub(crate) fn swap<'g>(
         &self,
         new: Shared<'_, T>,
         ord: Ordering,
         _: &'g Guard<'_>,
     ) -> Shared<'g, T> {
+        #[cfg(flurry_verif)]
+        {
+            use crate::verif::{self, Cell, Kind};
+            let op = verif::op(Kind::Swap, Cell::Ptr, self as *const _ as usize, ord, None);
+            let r: Shared<'g, T> = self.0.swap(new.ptr, ord).into();
+            verif::hooks().after_op(&op, r.ptr as usize, Some(new.ptr as usize));
+            return r;
+        }
+        #[allow(unreachable_code)]
         self.0.swap(new.ptr, ord).into()
     }
 
+    #[cfg_attr(flurry_verif, track_caller)]
     pub(crate) fn compare_exchange<'g>(
         &self,
         current: Shared<'_, T>,
@@ -41,6 +86,35 @@ impl<T> Atomic<T> {
         failure: Ordering,
         _: &'g Guard<'_>,
     ) -> Result<Shared<'g, T>, CompareExchangeError<'g, T>> {
+        #[cfg(flurry_verif)]
+        let verif_op = {
+            use crate::verif::{self, Cell, Kind};
+            verif::op(
+                Kind::Cas,
+                Cell::Ptr,
+                self as *const _ as usize,
+                success,
+                Some(failure),
+            )
+        };
+        #[cfg(flurry_verif)]
+        return match self
+            .0
+            .compare_exchange(current.ptr, new.ptr, success, failure)
+        {
+            Ok(ptr) => {
+                crate::verif::hooks().after_op(&verif_op, ptr as usize, Some(new.ptr as usize));
+                Ok(ptr.into())
+            }
+            Err(current) => {
+                crate::verif::hooks().after_op(&verif_op, current as usize, None);
+                Err(CompareExchangeError {
+                    current: current.into(),
+                    new,
+                })
+            }
+        };
+        #[allow(unreachable_code)]
         match self
             .0
             .compare_exchange(current.ptr, new.ptr, success, failure)
@@ -61,7 +135,23 @@ impl<T> From<Shared<'_, T>> for Atomic<T> {
 }
 
 impl<T> Clone for Atomic<T> {
+    #[cfg_attr(flurry_verif, track_caller)]
     fn clone(&self) -> Self {
+        #[cfg(flurry_verif)]
+        {
+            use crate::verif::{self, Cell, Kind};
+            let op = verif::op(
+                Kind::CloneLoad,
+                Cell::Ptr,
+                self as *const _ as usize,
+                Ordering::Relaxed,
+                None,
+            );
+            let p = self.0.load(Ordering::Relaxed);
+            verif::hooks().after_op(&op, p as usize, None);
+            return Atomic(p.into());
+        }
+        #[allow(unreachable_code)]
         Atomic(self.0.load(Ordering::Relaxed).into())
     }
 }
@@ -94,10 +184,20 @@ impl<'g, T> Shared<'g, T> {
     }
 
     pub(crate) fn boxed(value: T, collector: &Collector) -> Self {
+        #[cfg(flurry_verif)]
+        {
+            let s = Shared::from(collector.link_boxed(value));
+            crate::verif::hooks().alloc(s.ptr as usize, std::mem::size_of::<Linked<T>>());
+            return s;
+        }
+        #[allow(unreachable_code)]
         Shared::from(collector.link_boxed(value))
     }
 
+    #[cfg_attr(flurry_verif, track_caller)]
     pub(crate) unsafe fn into_box(self) -> Box<Linked<T>> {
+        #[cfg(flurry_verif)]
+        crate::verif::hooks().into_box(self.ptr as usize, std::panic::Location::caller());
         Box::from_raw(self.ptr)
     }
 
@@ -105,11 +205,19 @@ impl<'g, T> Shared<'g, T> {
         self.ptr
     }
 
+    #[cfg_attr(flurry_verif, track_caller)]
     pub(crate) unsafe fn as_ref(&self) -> Option<&'g Linked<T>> {
+        #[cfg(flurry_verif)]
+        if !self.ptr.is_null() {
+            crate::verif::hooks().deref(self.ptr as usize, std::panic::Location::caller());
+        }
         self.ptr.as_ref()
     }
 
+    #[cfg_attr(flurry_verif, track_caller)]
     pub(crate) unsafe fn deref(&self) -> &'g Linked<T> {
+        #[cfg(flurry_verif)]
+        crate::verif::hooks().deref(self.ptr as usize, std::panic::Location::caller());
         &*self.ptr
     }
 
@@ -144,11 +252,20 @@ impl<T> From<*mut Linked<T>> for Shared<'_, T> {
 }
 
 pub(crate) trait RetireShared {
+    #[cfg_attr(flurry_verif, track_caller)]
     unsafe fn retire_shared<T>(&self, shared: Shared<'_, T>);
 }
 
 impl RetireShared for Guard<'_> {
+    #[cfg_attr(flurry_verif, track_caller)]
     unsafe fn retire_shared<T>(&self, shared: Shared<'_, T>) {
+        #[cfg(flurry_verif)]
+        {
+            crate::verif::hooks().retire(shared.ptr as usize, std::panic::Location::caller());
+            self.defer_retire(shared.ptr, crate::verif::reclaim_boxed::<Linked<T>>);
+            return;
+        }
+        #[allow(unreachable_code)]
         self.defer_retire(shared.ptr, seize::reclaim::boxed::<Linked<T>>);
     }
 }
